@@ -205,6 +205,8 @@ struct colvars_verif_access {
   // PMF integration (C16)
   static integrate_potential *abf_pmf(colvarbias_abf *b) { return b->pmf.get(); }
   static std::vector<cvm::real> &pot_divergence(integrate_potential *p) { return p->divergence; }
+  static colvar_grid_gradient *abf_czar_gradients(colvarbias_abf *b) { return b->czar_gradients.get(); }
+  static integrate_potential *abf_czar_pmf(colvarbias_abf *b) { return b->czar_pmf.get(); }
   // extended-Lagrangian coordinate (C17)
   static double ext_x(colvar *c) { return c->x_ext.real_value; }
   static double ext_v(colvar *c) { return c->v_ext.real_value; }
